@@ -928,6 +928,13 @@ fn space_scenarios(tier: &str, prefix: &'static str) -> Vec<(String, ScenMaker)>
             out.push(maker(o, prefix));
         }
     }
+    // a completely full parent directory and a single free cluster: mkdir takes the cluster and then cannot enter
+    // the new directory into its parent
+    for k in [VolKind::V16a, VolKind::V32a] {
+        let mut o = base_opts(k, Some(1), if quick { 4 } else { 6 }, Alpha::Space);
+        o.sub_free_slots = 0;
+        out.push(maker(o, prefix));
+    }
     // the top of the largest FAT16 volume: cluster numbers 0xFFF0..=0xFFF5 are ordinary clusters
     out.push(maker(base_opts(VolKind::V16d, Some(4), if quick { 5 } else { 6 }, Alpha::Space), prefix));
     if quick {
